@@ -1,5 +1,7 @@
 import Proofs.C06.Polymod
 import Proofs.C06.Net
+import Proofs.C06.Codec
+import Proofs.C06.Regroup
 /-!
 # C06 — text encodings and addresses round-trip and accept exactly what the specs accept
 
@@ -56,6 +58,29 @@ theorem adjacent_transposition_detected (pre post : List Nat) (a b m : Nat)
   intro h2
   exact hne (adjacent_transposition pre post a b hpost ha hb (h1.trans h2.symm))
 
+/-- T2 (round trip): for every human-readable part btclib's decoder admits (non-empty, characters 48..122,
+    no upper case), every sequence of 5-bit values of any length and every checksum constant below 2^30
+    (explicit `m`, or read off the witness version when `m` is None), `bech32.encode` answers a string and
+    `bech32.decode` of that string answers exactly `(hrp, data)`: the last `1` is the separator, the six
+    checksum characters verify, nothing is lost. -/
+theorem bech32_decode_encode (hrp data : List Nat) (m : Option Nat) (mm : Nat) (hh : hrp ≠ [])
+    (hr : ∀ x ∈ hrp, 47 < x ∧ x < 123 ∧ ¬ (65 ≤ x ∧ x ≤ 90)) (hd : ∀ d ∈ data, d < 32)
+    (hm : pickM m data = .ok mm) (hmm : mm < 2 ^ 30) :
+    ∃ s, encodeNat hrp data m = .ok s ∧ Bech32.decode s m = .ok (hrp, data) :=
+  decode_encodeNat hrp data m mm hh hr hd hm hmm
+
+/-- T2 (constant by version): with `m` None the constant is 1 (bech32) for witness version 0 and
+    0x2bc830a3 (bech32m) otherwise, both below 2^30, so the round trip holds for every address payload. -/
+theorem bech32_roundtrip_by_version (hrp : List Nat) (ver : Nat) (rest : List Nat) (hh : hrp ≠ [])
+    (hr : ∀ x ∈ hrp, 47 < x ∧ x < 123 ∧ ¬ (65 ≤ x ∧ x ≤ 90)) (hd : ∀ d ∈ ver :: rest, d < 32) :
+    pickM none (ver :: rest) = .ok (if ver = 0 then 1 else 0x2bc830a3) ∧
+    ∃ s, encodeNat hrp (ver :: rest) none = .ok s ∧ Bech32.decode s none = .ok (hrp, ver :: rest) := by
+  refine ⟨rfl, ?_⟩
+  apply decode_encodeNat hrp (ver :: rest) none (if ver = 0 then 1 else 0x2bc830a3) hh hr hd rfl
+  split <;> decide
+
+example : encodeNat [98, 99] [0, 1, 2] none = .ok ("bc1qpz58kw9e".toList.map Char.toNat) := by decide
+
 /- NOT proved (`bch_four_errors_partial` would be its name): the full BCH guarantee of BIP173 —
    any error pattern touching at most 4 characters of a string of at most 90 characters is detected.
    It needs the BCH bound over GF(1024) (not in Mathlib) or a 2·10¹² case enumeration. -/
@@ -67,6 +92,25 @@ example : Bech32.polymod (hrpExpand [97] ++ [10, 28, 25, 30, 20, 31]) ≠ 1 :=
     (by decide) (by decide) (by decide) (by decide) (by decide)
 example : Bech32.polymod [3, 0, 1, 40000] = Bech32Ref.polymod [3, 0, 1, 40000] :=
   polymod_table_eq_reference _ (by decide)
+
+/-! ## 5/8-bit regrouping (`b32.power_of_2_base_conversion`) -/
+/-- T4 (regroup round trip): for a byte string of ANY length, 8→5 regrouping with padding succeeds, yields
+    5-bit digits, and 5→8 regrouping of those digits WITHOUT padding succeeds and returns the bytes: the
+    padding written is always shorter than 5 bits and zero, so the BIP173 padding rules never refuse it. -/
+theorem regroup_8_5_8_roundtrip (bytes : List Nat) (hb : ∀ v ∈ bytes, v < 256) :
+    ∃ five, BitRegroup.convert bytes 8 5 true = .ok five ∧ (∀ d ∈ five, d < 32) ∧
+      BitRegroup.convert five 5 8 false = .ok bytes :=
+  BitRegroup.convert_8_5_8 bytes hb
+
+/- NOT proved (`regroup_5_8_canonical` would be its name): `convert five 5 8 false = ok b` implies
+   `convert b 8 5 true = ok five` (5→8 accepts ONLY the canonical grouping: less than 5 padding bits, all
+   zero). Checked on the real code by the oracle `regroup.canonical` and by the `regroup` stream against the
+   BIP reference `convertbits`. -/
+
+example : BitRegroup.convert [0xff, 0x01] 8 5 true = .ok [31, 28, 0, 16] := by decide
+example : BitRegroup.convert [31, 28, 0, 16] 5 8 false = .ok [0xff, 0x01] := by decide
+example : BitRegroup.convert [31, 28, 0, 17] 5 8 false = .error .nonZeroPadding := by decide
+example : BitRegroup.convert [31, 28, 0, 16, 0, 0] 5 8 false = .error .excessPadding := by decide
 
 /-! ## Networks and witness programs (tables generated from `network.py` / `b32.py`) -/
 open Btc.Address Gen.Net in
